@@ -21,6 +21,8 @@ func main() {
 		gslbRun()
 	case "sticky-run":
 		stickyRun()
+	case "reload-run":
+		reloadRun()
 	default:
 		fmt.Fprintln(os.Stderr, "unknown subcommand", os.Args[1])
 		vh.Flush()
